@@ -59,6 +59,12 @@ def hint_model(h, reg: Registry):
     if hasattr(h, '__supertype__'):                     # NewType
         return hint_model(h.__supertype__, reg)
     if isinstance(h, type) and not isinstance(h, types.GenericAlias):
+        if getattr(h, '_is_protocol', False):
+            # a protocol is generated like a user generic without pseudo-superclasses:
+            # `isinstance(<assignment expression>, P)` — not modelled yet (see DESIGN §13.2)
+            raise NotImplementedError(repr(h))
+        if any(T.get_origin(b) is not None for b in getattr(h, '__orig_bases__', ())):
+            raise NotImplementedError(repr(h))          # user generics (unerased pseudo-superclasses) are not modelled
         return ['cls', reg.id(h)]
     origin, args = T.get_origin(h), T.get_args(h)
     if is_union(h):
